@@ -336,12 +336,14 @@ func c07Variants(w *World, wc *wireCtx, r *Report) {
 			continue
 		}
 		var usesKey, usesVal bool
+		loops := pairLoopBlocks(fn)
 		for _, st := range wc.m.sitesOf(fn) {
 			pf := pairUse(wc, st)
 			if pf["Key"] {
 				usesKey = true
 			}
-			if pf["Value"] {
+			// per-pair text: emitted inside this function's own loop over match pairs
+			if pf["Value"] && loops[st.instr.Block()] {
 				usesVal = true
 			}
 		}
